@@ -40,6 +40,7 @@ func runC17(c *Ctx) {
 	c.Rule("DUPLICATE-OUTPUT", "the same output path from two plugins is an error, detected before anything is written", 3)
 	c.Rule("INDEXED-RESULTS", "plugin responses are stored at the plugin's configuration index", 1)
 	c15StagedUntilFlush(c)
+	c11ClosureAlwaysWalked(c)
 	pk := p.Pkg("private/bufpkg/bufimage")
 	if pk == nil {
 		c.Fail("GENERATE-ONCE", "anchor", token.NoPos, "bufimage not found")
